@@ -216,9 +216,50 @@ pub fn c11_component_searches(quick: bool) -> Vec<Search> {
     ]
 }
 
+/// C11 at SQL level: the whole file is accounted for (catalogue trees, every table and index, overflow chains, free
+/// list) at the end of every history of DDL and DML with small, page-filling and multi-page rows, growing and shrinking
+/// updates, deletes, rollbacks, VACUUM, DROP TABLE and reopen.
+fn c11_sql_searches(quick: bool) -> Vec<Search> {
+    use crate::model::{ColTy, Op, Stmt, TableDef};
+    use crate::sqldrv::Val;
+    use crate::props_seq::mk_search;
+    let i = |k: i128| Val::Int(k);
+    let txt = |n: usize, ch: char| Val::Text(std::iter::repeat(ch).take(n).collect());
+    let d = TableDef::simple("d", &[("k", ColTy::Int), ("s", ColTy::Text)]);
+    let x = TableDef::simple("x", &[("k", ColTy::Int), ("s", ColTy::Text)]).with_unique(&["k"]);
+    let ins = |t: &str, k: i128, n: usize, ch: char| Stmt::Insert { table: t.into(), rows: vec![vec![i(k), txt(n, ch)]] };
+    let upd = |t: &str, k: i128, n: usize, ch: char| Stmt::Update { table: t.into(), set: vec![("s".into(), txt(n, ch))], pred: Some(("k".into(), i(k))) };
+    let del = |t: &str, k: i128| Stmt::Delete { table: t.into(), pred: Some(("k".into(), i(k))) };
+    let prefix = vec![Op::Auto(Stmt::CreateTable(d.clone())), Op::Auto(ins("d", 1, 1000, 'a')), Op::Auto(ins("d", 2, 9000, 'b')), Op::Auto(ins("d", 3, 20, 'c'))];
+    let alpha = vec![
+        Op::Auto(ins("d", 4, 1000, 'd')),
+        Op::Auto(ins("d", 5, 9000, 'e')),
+        Op::Auto(upd("d", 1, 1000, 'x')),
+        Op::Auto(upd("d", 1, 9000, 'y')),
+        Op::Auto(upd("d", 2, 20, 'z')),
+        Op::Auto(upd("d", 3, 3000, 'w')),
+        Op::Auto(del("d", 2)),
+        Op::Auto(Stmt::Delete { table: "d".into(), pred: None }),
+        Op::Auto(Stmt::CreateTable(x.clone())),
+        Op::Auto(ins("x", 1, 9000, 'q')),
+        Op::Auto(Stmt::DropTable("x".into())),
+        Op::Begin(1),
+        Op::In(1, ins("d", 6, 9000, 'r')),
+        Op::In(1, del("d", 1)),
+        Op::Rollback(1),
+        Op::Commit(1),
+        Op::Vacuum,
+        Op::Reopen,
+    ];
+    vec![mk_search("C11", "SQL level: d(k, s TEXT) with rows of 20 B, 1000 B and 9000 B; inserts, growing and shrinking updates, deletes, a second unique-keyed table created / filled / dropped, session insert/delete with commit or rollback, VACUUM, reopen - whole-file page census at the end of every history", crate::sqldrv::Cfg::default(), prefix, alpha, if quick { 3 } else { 5 }, if quick { 60_000 } else { 3_000_000 }, |p| {
+        p.census_end = true;
+    })]
+}
+
 pub fn c11(tier: &str) -> i32 {
     let quick = tier == "quick";
-    let searches = c11_component_searches(quick);
+    let mut searches = c11_component_searches(quick);
+    searches.extend(c11_sql_searches(quick));
     run_searches(
         "C11",
         tier,
@@ -228,7 +269,7 @@ pub fn c11(tier: &str) -> i32 {
             "component level: two B+trees sharing one real pager, driven through the verif facade; the whole-file audit is computed in the harness from raw page dumps after EVERY operation",
             "audit: starting from the two roots every page id in 1..total_pages must be reached exactly once - as a node of exactly one tree, as a link of exactly one overflow chain referenced by exactly one cell, or as a member of the free list, whose chain must be acyclic and agree with the recorded head and tail",
             "liveness half: the file must not grow during an operation while pages that were free before it are still free after it",
-            "the SQL-level part of the property (catalogue roots, DROP TABLE, VACUUM, reopen) is covered by the end-of-history audits of the seq-based checks only indirectly; this check decides the tree/pager level the property anchors",
+            "SQL level: one search over DDL/DML histories with a whole-file census (both catalogue trees, every table and index tree found through the catalogue, overflow chains of leaf cells, free list) at the end of every history that leaves no session open and no invisible relation (rolled-back CREATE, DROP not yet vacuumed) behind",
         ],
         "BFS over put (8 B .. 3 pages)/remove/run-insert/run-remove operations on a first tree and put/remove/grow/whole-tree dealloc on a second tree sharing the pager, from the empty file and from a 3-level first tree",
     )
